@@ -22,7 +22,49 @@ def jobs(pid, tier, seed):
     out += [{"kind": "bulk_list", "n": nn, "allow_list": a} for nn in (1010, 1200) for a in (1, 0)]
     for name, params in scenarios.directed_for(pid, tier):
         out.append({"kind": "directed", "name": name, "params": params})
+    out += [{"kind": "alloc_choice", "level": l, "usage": u} for l in range(5) for u in (0, 1)]
     return out
+
+
+def run_alloc_choice(job, acc):
+    """The allocator's whole choice set - every outcome of its random draw, through the real function - in one stored
+    state must be the same with listing allowed and disallowed (and with or without a usage database)."""
+    from ..engine import World, new_workdir, rmtree
+    from .c04 import choice_outcomes
+    lvl = job["level"]
+    held = {0: ["3"], 1: [str(i) for i in range(1, 10) if i != 6], 2: [str(i) for i in range(1, 10)] + ["12", "40", "07", " 5"],
+            3: [str(i) for i in range(1, 100) if i != 57], 4: [str(i) for i in range(1, 100)] + ["100", "250", "999"]}[lvl]
+    seen = {}
+    for allow in (True, False):
+        cfg = Config(usage=bool(job["usage"]) and allow, allow_list=allow)
+        wd = new_workdir("ac")
+        w = World(wd, cfg, seed=lvl, dump_every_step=False)
+        try:
+            w.start()
+            for i, nm in enumerate(held):
+                c = w.connect()
+                w.send(c.name, {"type": "bind", "appid": "app", "side": "s%d" % (i % 3)})
+                w.send(c.name, {"type": "claim", "nameplate": nm})
+                if i % 2:
+                    w.drop(c.name)
+            o = w.connect()
+            w.send(o.name, {"type": "bind", "appid": "app2", "side": "s1"})
+            w.send(o.name, {"type": "claim", "nameplate": "6"})
+            outs, n = choice_outcomes(w, w.server.get_app("app")._find_available_nameplate_id)
+            seen[allow] = (sorted(set(outs)) if n else ["<%d sampled>" % len(outs)], n)
+            acc.steps += w.counters["steps"]
+        finally:
+            w.close()
+            rmtree(wd)
+    acc.cases += 1
+    acc.ev["c18_config_pair"] += 1
+    acc.ev["c18_alloc_choice_sets_compared"] += 1
+    acc.distinct.add("alloc_choice:%d:%d" % (lvl, job["usage"]))
+    if seen[True] != seen[False]:
+        acc.add_violation({"property": "C18", "kind": "alloc_choice", "case": "alloc_choice:%s" % sorted(job.items()), "job": job,
+                           "violation": {"props": ["C18", "C04"], "kind": "the allocator's choice set differs between listing allowed and disallowed",
+                                         "detail": {"held": held[:12], "n_held": len(held), "allowed": [seen[True][0][:12], seen[True][1]],
+                                                    "disallowed": [seen[False][0][:12], seen[False][1]]}, "step": None}})
 
 
 def observe(hist, cfg, seed):
@@ -39,6 +81,8 @@ def observe(hist, cfg, seed):
 
 
 def run_job(pid, job, acc):
+    if job["kind"] == "alloc_choice":
+        return run_alloc_choice(job, acc)
     if job["kind"] == "bulk_list":
         from .histcheck import run_bulk_list
         return run_bulk_list(pid, job, acc)
@@ -85,7 +129,7 @@ def run_job(pid, job, acc):
 
 
 def replay(pid, rep):
-    if rep.get("kind") == "bulk_list":
+    if rep.get("kind") in ("bulk_list", "alloc_choice"):
         acc = Acc(pid)
         run_job(pid, rep["job"], acc)
         return acc
